@@ -74,7 +74,7 @@ def main():
                 plist = [x for x in [name.split("-")[0]] if x in impl] or impl
             fired = []
             for prop in plist:
-                r = subprocess.run([os.path.join(HERE, "bin", "pfverify"), "-repo", d, "-verif", vdir, "-prop", prop],
+                r = subprocess.run([os.environ.get("PFVERIFY_BIN", os.path.join(HERE, "bin", "pfverify")), "-repo", d, "-verif", vdir, "-prop", prop],
                                    capture_output=True, text=True)
                 if r.returncode == 2:
                     fired.append(prop + ":ERROR " + (r.stderr.strip().splitlines() or [""])[-1][:120])
